@@ -253,6 +253,22 @@ def run(chk):
             chk.run("C06.R4", f"jinns.parameters._derivative_keys:{DK[eq_type]}.__post_init__", {"loss": eq_type, "only_specified": given},
                     go_partial, construct="partial derivative keys")
 
+        # the keys are read from the public field when the loss is evaluated: a loss built with the default keys whose
+        # `derivative_keys` were replaced afterwards (eqx.tree_at) routes the gradients like a loss built with those keys
+        def go_replaced(eq_type=eq_type, terms=terms, dkcls=dkcls):
+            from ..lossenv import replaced_field_twin
+            conf = tuple(CONF[t] for t in terms)
+            special = {'nn_params': False, 'nu': True, 'th': False}
+
+            def makeB():
+                S0 = SingleLoss(E, eq_type, 'PINN', d=2, terms=conf, eq_keys=EQ_KEYS)
+                dk = dkcls(**{t: mask_tree(special) for t in terms}, params=S0.params)
+                return SingleLoss(E, eq_type, 'PINN', d=2, terms=conf, eq_keys=EQ_KEYS, derivative_keys=dk)
+            return replaced_field_twin(lambda: SingleLoss(E, eq_type, 'PINN', d=2, terms=conf, eq_keys=EQ_KEYS), makeB,
+                                       'derivative_keys', term_keys=list(terms), canon_kw=dict(keep_fp=True, keep_sg=True))
+        chk.run("C06.R4", f"jinns.loss:{eq_type}.evaluate", {"loss": eq_type, "derivative_keys": "replaced after construction"},
+                go_replaced, construct="derivative keys replaced after construction")
+
 
     # ---------------- R5: per-unknown terms of system losses
     from ..lossenv import SystemLoss
